@@ -303,7 +303,7 @@ func (x *Exec) iteVal(c *Term, a, b Val) Val {
 			return r
 		}
 		panic(mergeErr{"merge of different function values"})
-	case ListSliceVal, MapVal, RegexpVal, OpaqueVal:
+	case ListSliceVal, MapVal, RegexpVal, OpaqueVal, rangeIter:
 		return a // immutable tables: both sides must be the same object by construction
 	case nil:
 		return b
@@ -436,7 +436,7 @@ func sameVal(a, b Val) bool {
 			}
 		}
 		return true
-	case OpaqueVal, RegexpVal, MapVal:
+	case OpaqueVal, RegexpVal, MapVal, rangeIter:
 		return true
 	case ListSliceVal:
 		bv, ok := b.(ListSliceVal)
